@@ -303,7 +303,7 @@ def replay(init, groups, outdir, nshards=None, lookup=(), listeners="", chain=Fa
     slices = [s for s in slices if s[2]]
     if not slices:
         return [], []
-    with mp.Pool(min(NPROC, len(slices))) as pool:
+    with mp.Pool(min(NPROC, len(slices)), initializer=tlcrun.die_with_parent) as pool:
         stats = pool.map(replay_slice, slices)
     return [s[3] for s in slices], stats
 
@@ -340,7 +340,7 @@ def _validate_one(args):
 
 
 def validate(shards, strict=True, module="Trace"):
-    with mp.Pool(min(NPROC, len(shards))) as pool:
+    with mp.Pool(min(NPROC, len(shards)), initializer=tlcrun.die_with_parent) as pool:
         return pool.map(_validate_one, [(p, strict, module) for p in shards])
 
 
